@@ -2,6 +2,7 @@ package mongokit
 
 import (
 	"fmt"
+	"math"
 
 	"go.mongodb.org/mongo-driver/bson"
 
@@ -172,12 +173,12 @@ func projectSlice(ctx Context, doc bsonkit.Doc, _, path string, v interface{}) e
 	var skip, limit int
 	var hasSkip bool
 	switch nn := v.(type) {
-	case int32:
-		limit = int(nn)
-	case int64:
-		limit = int(nn)
-	case float64:
-		limit = int(nn)
+	case int32, int64, float64:
+		l, ok := projectSliceInt(nn)
+		if !ok {
+			return fmt.Errorf("$slice: expected number")
+		}
+		limit = l
 	case bson.A:
 		if len(nn) != 2 {
 			return fmt.Errorf("$slice: array argument requires 2 elements, got %d", len(nn))
@@ -252,12 +253,26 @@ func projectSlice(ctx Context, doc bsonkit.Doc, _, path string, v interface{}) e
 }
 
 func projectSliceInt(v interface{}) (int, bool) {
+	// numbers are clamped to the int32 range, as no array can be longer and
+	// the window arithmetic must not overflow
 	switch n := v.(type) {
 	case int32:
 		return int(n), true
 	case int64:
+		if n > math.MaxInt32 {
+			return math.MaxInt32, true
+		} else if n < math.MinInt32 {
+			return math.MinInt32, true
+		}
 		return int(n), true
 	case float64:
+		if math.IsNaN(n) {
+			return 0, false
+		} else if n > math.MaxInt32 {
+			return math.MaxInt32, true
+		} else if n < math.MinInt32 {
+			return math.MinInt32, true
+		}
 		return int(n), true
 	default:
 		return 0, false
